@@ -138,7 +138,7 @@ def run(ctx, c):
 
 
 def codes():
-    return [("SWZ" if c == "SWT" else c) for c in model.iso3_list()] + ["WOR"]
+    return model.iso3_list() + ["SWZ", "WOR"]      # Eswatini under both spellings (SWT: the model's country table; SWZ: the FAO tables)
 
 
 def shard(ctx):
